@@ -23,6 +23,31 @@ import (
 
 const Root = "/verif"
 
+// Work is the scratch directory of the checks (binaries, instrumented tree). RepoDir is the tree under test.
+// OutDir receives evidence/ and replays/. The environment overrides exist so that a seeded change can be
+// evaluated from a scratch worktree without touching /repo or the committed evidence (tools/seed_eval.sh);
+// the registered commands never set them.
+func Work() string {
+	if w := os.Getenv("VERIF_WORK"); w != "" {
+		return w
+	}
+	return filepath.Join(Root, ".work")
+}
+
+func RepoDir() string {
+	if w := os.Getenv("VERIF_REPO"); w != "" {
+		return w
+	}
+	return "/repo"
+}
+
+func OutDir() string {
+	if w := os.Getenv("VERIF_OUT"); w != "" {
+		return w
+	}
+	return Root
+}
+
 type finding struct {
 	key  string
 	what string
@@ -226,7 +251,7 @@ func (r *Run) Violation(key, what string, replay interface{}) {
 	}
 	f.n++
 	if f.n <= 3 && r.Replay == "" {
-		dir := filepath.Join(Root, "replays")
+		dir := filepath.Join(OutDir(), "replays")
 		os.MkdirAll(dir, 0o755)
 		p := filepath.Join(dir, fmt.Sprintf("%s_%s_%d.json", r.Prop, sanitize.ReplaceAllString(key, "_"), f.n))
 		b, _ := json.MarshalIndent(map[string]interface{}{"property": r.Prop, "key": key, "what": what, "case": replay}, "", " ")
@@ -326,9 +351,9 @@ func (r *Run) Finish() {
 	}
 	r.mu.Unlock()
 	if r.Replay == "" {
-		os.MkdirAll(filepath.Join(Root, "evidence"), 0o755)
+		os.MkdirAll(filepath.Join(OutDir(), "evidence"), 0o755)
 		b, _ := json.MarshalIndent(evd, "", " ")
-		if err := os.WriteFile(filepath.Join(Root, "evidence", r.Prop+".json"), b, 0o644); err != nil {
+		if err := os.WriteFile(filepath.Join(OutDir(), "evidence", r.Prop+".json"), b, 0o644); err != nil {
 			Fatal("cannot write evidence: %v", err)
 		}
 	}
